@@ -149,6 +149,9 @@ THRESH_SPECS = (
     {"amp": [5, 1, 2], "hon": 0},
     {"amp": 2, "hon": 0},                  # scalar
     {"amp": [1, 1, 1], "hon": [0.0, 1.0, 2.5], "rms": 2.0},  # noise-scaled
+    # non-integer thresholds (the stored samples are integers, the baseline has a fractional part)
+    {"amp": [1.5, 2.25, 0.5], "hon": 0},
+    {"amp": [1, 1, 1], "hon": [0.75, 1.25, 1.0], "rms": 2.0},
 )
 EXTS = ((0, 0), (1, 2), (2, 1), (0, None), (None, None), (None, 0), (3, 7))  # None -> L
 
